@@ -220,6 +220,11 @@ func genReadSites() ([]byte, error) {
 		return nil, err
 	}
 	b.WriteString(disp)
+	ce, err := connEncFacts()
+	if err != nil {
+		return nil, err
+	}
+	b.WriteString(ce)
 	b.WriteString("Definition read_sites : list (string * string * string * string * string) := [\n")
 	for i, s := range sites {
 		sep := ";"
@@ -319,5 +324,66 @@ func dispatchFacts() (string, error) {
 	fmt.Fprintf(&b, "Definition readloop_shape : Z * Z * Z := (%d%%Z, %d%%Z, %d%%Z).\n", loopGo, loopDirect, loopDefault)
 	fmt.Fprintf(&b, "(* server/control.go registerMsgHandlers: message -> how its handler is registered *)\n")
 	fmt.Fprintf(&b, "Definition server_handlers : list (string * string) := [%s].\n", strings.Join(regs, "; "))
+	return b.String(), nil
+}
+
+// connEncFacts: under which conditions the two ends install the control-channel cipher.
+//   client/service.go: every statement that assigns connEncrypted, with the condition of the enclosing if
+//   ("" = unconditional) and the value; server/service.go: the argument RegisterControl passes to NewControl
+//   for ctlConnEncrypted.  The released rule: encrypted unless the session is an internal ssh-tunnel one.
+func connEncFacts() (string, error) {
+	fset := token.NewFileSet()
+	f, err := parser.ParseFile(fset, filepath.Join(tx.Repo, "client/service.go"), nil, 0)
+	if err != nil {
+		return "", err
+	}
+	var assigns []string
+	var walk func(n ast.Node, cond string)
+	walk = func(n ast.Node, cond string) {
+		ast.Inspect(n, func(x ast.Node) bool {
+			switch s := x.(type) {
+			case *ast.IfStmt:
+				if x == n {
+					return true
+				}
+				c := exprString(s.Cond)
+				if cond != "" {
+					c = cond + " && " + c
+				}
+				walk(s.Body, c)
+				if s.Else != nil {
+					walk(s.Else, "else("+c+")")
+				}
+				return false
+			case *ast.AssignStmt:
+				for i, l := range s.Lhs {
+					if id, ok := l.(*ast.Ident); ok && id.Name == "connEncrypted" && i < len(s.Rhs) {
+						assigns = append(assigns, fmt.Sprintf("(%s, %s)", tx.CoqString(cond), tx.CoqString(exprString(s.Rhs[i]))))
+					}
+				}
+			}
+			return true
+		})
+	}
+	for _, d := range f.Decls {
+		if fd, ok := d.(*ast.FuncDecl); ok && fd.Body != nil {
+			walk(fd.Body, "")
+		}
+	}
+	g, err := parser.ParseFile(fset, filepath.Join(tx.Repo, "server/service.go"), nil, 0)
+	if err != nil {
+		return "", err
+	}
+	var srv []string
+	ast.Inspect(g, func(x ast.Node) bool {
+		if c, ok := x.(*ast.CallExpr); ok && exprString(c.Fun) == "NewControl" && len(c.Args) >= 7 {
+			srv = append(srv, tx.CoqString(exprString(c.Args[6])))
+		}
+		return true
+	})
+	var b bytes.Buffer
+	b.WriteString("(* client/service.go: (condition, value) of every assignment to connEncrypted; server/service.go: NewControl's ctlConnEncrypted argument *)\n")
+	fmt.Fprintf(&b, "Definition client_conn_encrypted : list (string * string) := [%s].\n", strings.Join(assigns, "; "))
+	fmt.Fprintf(&b, "Definition server_conn_encrypted : list string := [%s].\n", strings.Join(srv, "; "))
 	return b.String(), nil
 }
